@@ -1,5 +1,6 @@
 import ArgMapper.Driver.SigD
 import ArgMapper.Model.Reach
+import ArgMapper.Model.ErrMsg
 import ArgMapper.Model.Hist
 import ArgMapper.Model.Gens
 import ArgMapper.Props.C07b
@@ -24,6 +25,11 @@ def parseVtx (s : String) : Vtx :=
   | ["O", t, st] => .out (natOf t) (unTilde st)
   | ["F", k] => .func (natOf k)
   | _ => .func 99999
+
+/-- `reflect.Type.String()` of the harness's type universe (the harness checks this convention when it starts) -/
+def tyNameOf (t : Nat) : String :=
+  if t ≤ 9 then s!"main.K{t}" else if t ≥ 10 ∧ t ≤ 13 then s!"main.I{t - 10}" else if t = 20 then "*main.E0"
+  else if t = 1000 then "error" else if t = 21 then "main.L0" else if t = 22 then "[]int" else s!"?{t}"
 
 def showVtx : Vtx → String
   | .root => "R"
@@ -501,9 +507,37 @@ def runPredicates (sc : Scn) (fx : Facts) (evs : List Ev) : List (String × Opti
     | none => if outcomeClass ires = "funcerr" then some "error_reported_but_no_function_failed" else none
   -- C06
   let c06 : Option String := if isPanicRes ires then some s!"{noSpace (showImplRes ires)}" else none
+  -- the text of the unsatisfied-argument error against the model of `Error()` (Model/ErrMsg.lean): every entry the
+  -- model's message lists (a missing argument, a parameter, an input, a converter with its values) must end at least
+  -- as many lines of the real message as of the model's — bullets, headers and prose are free to change
+  let c13msg : Option String :=
+    match ires with
+    | "err" :: "unsat" :: rest =>
+      match kv rest "msg" with
+      | none => none
+      | some enc =>
+        let args := parseLabelList ((kv rest "args").getD "")
+        let inputs := (((kv rest "inputs").getD "").splitOn "," |>.filter (· ≠ "") |>.map parseLabelV).map (·.1)
+        let cn := ((kv rest "cnames").getD "").splitOn ";" |>.filter (· ≠ "") |>.map (fun s =>
+          match s.splitOn ":" with
+          | [i, n] => (if i.startsWith "-" then none else some (natOf i), unTilde n)
+          | _ => (none, "?"))
+        if cn.any (fun p => p.1.isNone) then none else
+        let convs : List ConvShown := cn.map (fun p =>
+          let f := sc.fn (p.1.getD 0)
+          { name := p.2, ins := (f.map (·.input.labels)).getD [], outs := (f.map (·.output.labels)).getD [] })
+        let model := unsatMessageLines tyNameOf (unTilde ((kv rest "fname").getD "~")) fx.target.input.labels args inputs convs
+        let impl := (unTilde enc).splitOn "\n"
+        let entries : List String := ((args ++ fx.target.input.labels ++ inputs ++ convs.flatMap (fun c => c.ins ++ c.outs)).map
+          (renderValue tyNameOf) ++ convs.map (·.name)).eraseDups
+        let count := fun (ls : List String) (r : String) => (ls.filter (fun l => l.endsWith r)).length
+        match entries.find? (fun r => count impl r < count model r) with
+        | none => none
+        | some r => some s!"message_lists_[{noSpace r}]_{count impl r}_times_the_model_of_Error()_{count model r}_times"
+    | _ => none
   -- C13
   let c13 : Option String :=
-    if fx.hopeless.isEmpty then none
+    if fx.hopeless.isEmpty then c13msg
     else match ires with
       | "err" :: "unsat" :: rest =>
         let args := parseLabelList ((kv rest "args").getD "")
@@ -524,7 +558,7 @@ def runPredicates (sc : Scn) (fx : Facts) (evs : List Ev) : List (String × Opti
             (convs.filter (fun i => keyOf i == f.key)).length ≥ (fx.convs.filter (fun g => g.key == f.key)).length) then
           some "a_supplied_converter_is_missing_from_the_report"
         else if (kv rest "mentions").getD "" ≠ "true" then some "message_does_not_mention_a_missing_argument"
-        else none
+        else c13msg
       | _ => some s!"hopeless_parameter_but_{outcomeClass ires}"
   [("C01", c01), ("C02", c02), ("C03", c03), ("C04", c04), ("C06", c06), ("C13", c13)]
 
